@@ -50,7 +50,9 @@ def plan(tier, seed):
                 "regex-metachar": i[:a].replace("-", ".") + "*"}[kind]         # '.', '+', '(' ... are literal characters in a pattern
     cases = []
     fixed = [(["pixee:python/secure-r*", "pixee:python/secure-*"], None), (["*secure"], None), (["*random"], None), (["pixee:python/secure-random", "nope:python/x", "pixee:python/url-sandbox"], None),
-             (["pixee:python/url-sandbox", "pixee:python/secure-random"], None), (None, ["pixee:python/secure-random"]), (None, ["pixee:python/secure-*"]), (None, None), (["sonar:python/secure-random"], None), (["*"], None), (None, ["*"])]
+             (["pixee:python/url-sandbox", "pixee:python/secure-random"], None), (None, ["pixee:python/secure-random"]), (None, ["pixee:python/secure-*"]), (None, None), (["sonar:python/secure-random"], None), (["*"], None), (None, ["*"]),
+             # empty entries (an empty shell variable, a stray comma): an empty entry names no codemod - it is not "no list given"
+             ([""], None), (["", ""], None), (["", "pixee:python/secure-random", ""], None), (None, [""]), (None, ["", "pixee:python/secure-random"])]
     for inc, exc in fixed: cases.append((inc, exc, False)); cases.append((inc, exc, True))
     n = 60 if tier == "quick" else 800
     def covering(i):
